@@ -389,6 +389,14 @@ impl StringDecoder for Utf8LengthPrefixedDecoder {
             .first()
             .ok_or_else(|| PacketBad.context("Length of string not found"))?;
 
+        // The declared length must fit in the remaining data
+        if data.len() < length as usize + 1 {
+            return Err(PacketUnderflow.context(format!(
+                "String length {length} was larger than remaining bytes {}",
+                data.len() - 1
+            )));
+        }
+
         // Find the position of the delimiter in the data. If the delimiter is not
         // found, the length is returned.
         let position = data
